@@ -4,7 +4,8 @@ open Lean Aeic Aeic.Wire
 /-- area prefix ↦ handler; ops are named `<area>.<name>` -/
 def handlers : List (String × (String → Json → Except String Json)) := [
   ("store", Aeic.Store.handle),
-  ("merge", Aeic.Merge.handle)
+  ("merge", Aeic.Merge.handle),
+  ("c20", Aeic.ThreadGuard.handle)
 ]
 
 def dispatch (op : String) (j : Json) : Except String Json :=
